@@ -298,6 +298,18 @@ def check_frame(row, cls, args, mods):
             out.append(("C03:decode-name:" + name, "%s: standard frame %#0*x (devicetype %d) decodes to %s.%s"
                         % (where, row.bits // 4 + 2, exp, row.devicetype,
                            type(dec).__module__, type(dec).__name__)))
+        # (b2) the class's own decoder (the entry point the dispatcher itself uses, and the documented hook: "answers None
+        # for a frame that is not mine") recognises the standard's frame for this command as its own
+        if type(dec) is cls and hasattr(cls, "from_frame"):
+            try:
+                own = cls.from_frame(frame.ForwardFrame(row.bits, exp), devicetype=row.devicetype, **kw)
+            except TypeError:
+                own = cls.from_frame(frame.ForwardFrame(row.bits, exp))
+            except Exception as e:  # noqa
+                own = e
+            if type(own) is not cls or own.frame.as_integer != exp:
+                out.append(("C03:own-decoder:" + name, "%s: %s.from_frame() of the standard frame %#0*x gives %r, the "
+                            "dispatcher gives %s" % (where, cls.__name__, row.bits // 4 + 2, exp, own, type(dec).__name__)))
         # (c) the command tables of parts 103/301/303/304 do not depend on an instance map: a bus watcher that hands its
         # dev_inst_map to every decode (the option exists for device/instance EVENTS) gets the same class for a command
         if row.bits == 24 and row.form != "event":
